@@ -91,7 +91,8 @@ class Node:
         if self.id is not None:
             d["id"] = self.id
         if self.kind == "folder":
-            d["folder"] = {"childCount": len(self.children)}
+            # optional facet fields missing: every third folder has a bare `"folder": {}` facet (Graph allows it)
+            d["folder"] = {} if sum(map(ord, str(self.id))) % 3 == 0 else {"childCount": len(self.children)}
         elif self.kind == "file":
             d["file"] = self.extra.get("file", {"mimeType": "application/octet-stream"})
         else:
